@@ -364,6 +364,7 @@ func (e *Engine) execSimple(st *State, instr ssa.Instruction) {
 		q.Elem = ft
 		if p.Ref != nil {
 			e.nonNil(st, p.Ref, in.Pos())
+			e.assumeTypeInv(st, p)
 		}
 		fr.regs[in] = q
 	case *ssa.Field:
@@ -603,6 +604,10 @@ func (e *Engine) execTypeAssert(st *State, in *ssa.TypeAssert) {
 			v = val
 		} else {
 			v = mergeValues(okv, val, z)
+		}
+		// a dynamic payload is a well-typed value of its type
+		for _, f := range typeFacts(in.AssertedType, val) {
+			st.assumeFacts([]*smt.Term{smt.Implies(okv, f)})
 		}
 		st.fr.regs[in] = TupleV{v, BoolV{okv}}
 		return
